@@ -374,6 +374,7 @@ def handwritten_leaves(F):
     import re as _re
     own = {}
     calls = {}
+    inst = {}
     for f in F.fns:
         if f["pv"] != "user":
             continue
@@ -394,6 +395,10 @@ def handwritten_leaves(F):
             tgt = x.get("resolved") or c
             if x.get("k") in ("call", "mcall") and tgt in F.fns_by_path and len(F.fns_by_path[tgt]) == 1 and F.fns_by_path[tgt][0]["pv"] == "user":
                 calls.setdefault(f["path"], set()).add(tgt)
+                # a generic helper decodes `T`: what T is at this call site
+                gen = [g["name"] for g in (F.fns_by_path[tgt][0].get("generics") or []) if g.get("kind") != "lifetime"]
+                if gen and len(gen) == len(ta):
+                    inst.setdefault((f["path"], tgt), []).append(dict(zip(gen, ta)))
             if x.get("k") == "path" and x["res"].get("rk") in ("Fn", "AssocFn") and x["res"].get("path") in F.fns_by_path:
                 calls.setdefault(f["path"], set()).add(x["res"]["path"])
             # a visitor type handed to deserialize_seq / deserialize_map ..: its visit_* methods belong to this decoder
@@ -413,6 +418,22 @@ def handwritten_leaves(F):
             seen.add(p)
             todo.extend(calls.get(p, ()))
         return seen
+
+    def leaves_of(path, depth=0):
+        """leaf types decoded by `path` and the helpers it calls, a generic helper's type parameters replaced by the arguments of
+        each call site"""
+        out = set(own.get(path, set()))
+        if depth > 4:
+            return out
+        for tgt in calls.get(path, ()):
+            sub = leaves_of(tgt, depth + 1) if tgt != path else set()
+            maps = inst.get((path, tgt))
+            if maps:
+                for mp in maps:
+                    out |= {erase_lt(mp.get(t, t)) for t in sub}
+            else:
+                out |= sub
+        return out
 
     def key_of(path):
         m = _re.match(r"^<+(.*?) as serde_core::de::Deserialize<'de>>", path)
@@ -444,8 +465,8 @@ def handwritten_leaves(F):
     for k, ps in roots.items():
         leaves = set()
         for p in ps:
+            leaves |= leaves_of(p)
             for q in closure(p):
-                leaves |= own.get(q, set())
                 attributed.add(q)
         if leaves:
             out[k] = leaves
